@@ -53,7 +53,13 @@ template <unsigned N> struct SymAut {
   static unsigned long triangular() { unsigned long m = 0; unsigned n = Univ<N>::count(); for (unsigned i = 0; i < n; ++i) { Rule r = Univ<N>::rule(i); bool ok = true; for (unsigned k = 0; k < r.rank; ++k) ok = ok && r.parent <= r.child[k]; if (ok) m |= 1ul << i; } return m; }
   bool has(unsigned sym, unsigned parent, unsigned c0 = 0, unsigned c1 = 0, unsigned c2 = 0) const { return pres[Univ<N>::index(sym, parent, c0, c1, c2)]; }
   template <class Aut> void build(Aut& aut, const unsigned* rename = 0) const {
-    for (unsigned i = 0; i < nrules; ++i) if (pres[i]) {
+    for (unsigned j = 0; j < nrules; ++j) {
+#ifdef BUILD_REV      // rules are added in reverse universe order (tuple objects are created - and addressed - in that order)
+      const unsigned i = nrules - 1 - j;
+#else
+      const unsigned i = j;
+#endif
+      if (!pres[i]) continue;
       Rule r = Univ<N>::rule(i); typename Aut::StateTuple t;
       for (unsigned k = 0; k < r.rank; ++k) t.push_back(rename ? rename[r.child[k]] : r.child[k]);
       aut.AddTransition(t, symnum(r.sym), rename ? rename[r.parent] : r.parent);
